@@ -10,7 +10,7 @@ pub fn spec(tier: Tier) -> RunSpec {
     let mut s = super::base_spec(
         8,
         "section exhaustive: the 11 settings x the 8 subsets of {environment, rws.config.toml, command line}, each source supplying its own recognisable value (88 runs, complete; flagged exhaustive). \
-section sampled: every setting draws its own subset of sources, a rendering of the config file (comments, blank lines, single/double quotes, single-line arrays with inner blanks, '_' or '-' in keys, key order, blanks around '=', LF/CRLF) \
+section sampled: every setting draws its own subset of sources, a rendering of the config file (comments, blank lines, single/double quotes, single-line arrays with inner blanks, '_' or '-' in keys, key order, blanks around '=', LF/CRLF, and the layout whitespace TOML allows: indented key lines, an indented [cors] header, blanks inside its brackets and after it, trailing blanks, whitespace-only lines) \
 and a flag spelling (short -p= / long --port=). Oracle M-CONF: effective value = first present of command line, file, environment, documented default; all 11 effective values are read back on every run from the running server: \
 the 'Setting up http://ip:port' line and the address that accepts connections, 'Spawned N thread(s)' and the worker threads in /proc, CORS headers of probe requests (one probe per candidate origin; an OPTIONS probe shows methods / headers / expose / credentials / max-age), \
 and the buffer size echoed by POST /file-upload/initiate (value - 4000). Non-trivial = at least two sources supply the same setting; distinct by case.",
@@ -47,7 +47,9 @@ pub struct Case {
 }
 
 #[derive(Clone, Debug, Serialize, Deserialize)]
-pub struct Render { pub crlf: bool, pub quotes: u8, pub spaces: u8, pub comments: u8, pub hyphen_keys: u16, pub order: u64, pub tabs: bool }
+pub struct Render { pub crlf: bool, pub quotes: u8, pub spaces: u8, pub comments: u8, pub hyphen_keys: u16, pub order: u64, pub tabs: bool,
+    /// layout whitespace TOML allows: bits 0..10 indent key line i, 11 indent the table header, 12 blanks inside its brackets, 13 blanks after the header, 14 blanks after every key line, 15 whitespace-only lines
+    #[serde(default)] pub layout: u16 }
 
 /// the value source `src` (0 env, 1 file, 2 cli) supplies for a setting; ports are filled in per run
 fn value_of(setting: &str, src: usize, ports: &[u16; 3], bools: u8) -> String {
@@ -83,7 +85,10 @@ fn render_file(c: &Case, ports: &[u16; 3]) -> Option<String> {
             else if matches!(*s, "port" | "thread_count" | "request_allocation_size_in_bytes" | "allow_all" | "allow_credentials") && (r.quotes >> ((i + 3) % 8)) & 1 == 0 { v.clone() }
             else { format!("{}{}{}", q, v, q) };
         let comment = match (r.comments >> (i % 4)) & 3 { 1 => " # a trailing comment".to_string(), 2 => "#tight".to_string(), _ => String::new() };
-        let line = format!("{}{}={}{}{}", key, sp(r.spaces), sp(r.spaces / 4), rendered, comment);
+        let blank = if r.tabs { "\t" } else { " " };
+        let indent = if (r.layout >> i) & 1 == 1 { blank.repeat(1 + i % 3) } else { String::new() };
+        let trail = if (r.layout >> 14) & 1 == 1 { blank.repeat(2) } else { String::new() };
+        let line = format!("{}{}{}={}{}{}{}", indent, key, sp(r.spaces), sp(r.spaces / 4), rendered, comment, trail);
         if is_cors(s) { cors_lines.push(line) } else { root_lines.push(line) }
     }
     if root_lines.is_empty() && cors_lines.is_empty() { return None; }
@@ -94,7 +99,13 @@ fn render_file(c: &Case, ports: &[u16; 3]) -> Option<String> {
     if r.comments & 1 == 1 { lines.push("# generated configuration".into()); lines.push(String::new()); }
     lines.extend(root_lines);
     if r.comments & 2 == 2 { lines.push(String::new()); lines.push("   # cross origin".into()); }
-    if !cors_lines.is_empty() { lines.push(if r.comments & 4 == 4 { "[cors] #  CROSS ORIGIN RESOURCE SHARING".into() } else { "[cors]".into() }); lines.extend(cors_lines); }
+    if !cors_lines.is_empty() {
+        let blank = if r.tabs { "\t" } else { " " };
+        let header = format!("{}{}{}", if (r.layout >> 11) & 1 == 1 { blank.repeat(2) } else { String::new() }, if (r.layout >> 12) & 1 == 1 { format!("[{}cors{}]", blank, blank) } else { "[cors]".to_string() }, if (r.layout >> 13) & 1 == 1 { blank.repeat(3) } else { String::new() });
+        lines.push(if r.comments & 4 == 4 { format!("{} #  CROSS ORIGIN RESOURCE SHARING", header) } else { header });
+        if (r.layout >> 15) & 1 == 1 { lines.push(blank.repeat(4)); }
+        lines.extend(cors_lines);
+    }
     let nl = if r.crlf { "\r\n" } else { "\n" };
     Some(lines.join(nl) + nl)
 }
@@ -191,6 +202,8 @@ fn eval_in(ctx: &Ctx, c: &Case, docroot: &std::path::Path) -> Verdict {
     if let Some(e) = srv.exited() { problems.push(("server-process-gone".to_string(), e)); }
     let multi = c.subsets.iter().any(|s| s.count_ones() >= 2);
     if c.render.tabs { classes.push("config-with-tab-blanks"); }
+    if c.render.layout & 0x7ff != 0 { classes.push("config-with-indented-keys"); }
+    if c.render.layout & 0x3800 != 0 { classes.push("config-table-header-with-layout-blanks"); }
     if c.subsets.iter().any(|s| s & 2 != 0) { classes.push("with-config-file"); }
     if c.subsets.iter().any(|s| s & 4 != 0) { classes.push("with-command-line"); }
     if c.subsets.iter().any(|s| s & 1 != 0) { classes.push("with-environment"); }
@@ -205,7 +218,7 @@ fn lock_default_port() -> Option<std::fs::File> {
     Some(f)
 }
 
-fn plain_render() -> Render { Render { crlf: false, quotes: 0, spaces: 1, comments: 0, hyphen_keys: 0, order: 0, tabs: false } }
+fn plain_render() -> Render { Render { crlf: false, quotes: 0, spaces: 1, comments: 0, hyphen_keys: 0, order: 0, tabs: false, layout: 0 } }
 
 pub fn run(ctx: &Ctx) {
     *ctx.max_shrink_iters.borrow_mut() = 40;
@@ -235,7 +248,7 @@ pub fn run(ctx: &Ctx) {
     }
     ctx.clear_inflight();
     if ctx.worker == 0 { ctx.mark_exhaustive("exhaustive"); }
-    let render = (any::<bool>(), any::<u8>(), any::<u8>(), any::<u8>(), any::<u16>(), any::<u64>(), proptest::bool::weighted(0.1)).prop_map(|(crlf, quotes, spaces, comments, hyphen_keys, order, tabs)| Render { crlf, quotes, spaces, comments, hyphen_keys, order, tabs });
+    let render = (any::<bool>(), any::<u8>(), any::<u8>(), any::<u8>(), any::<u16>(), any::<u64>(), proptest::bool::weighted(0.1), prop_oneof![2 => Just(0u16), 3 => any::<u16>()]).prop_map(|(crlf, quotes, spaces, comments, hyphen_keys, order, tabs, layout)| Render { crlf, quotes, spaces, comments, hyphen_keys, order, tabs, layout });
     let strat = (proptest::collection::vec(0u8..8, 11), proptest::collection::vec(0u8..8, 11), any::<u16>(), render).prop_map(|(mut subsets, bools, short_flags, render)| {
         // keep most runs away from the shared default port
         if subsets[1] == 0 && short_flags % 8 != 0 { subsets[1] = 1; }
